@@ -62,8 +62,10 @@ def run(patch, tests=False, props=None, quiet=False):
             # reuse the dependency artefacts of /repo/target through hard links (members are rebuilt: their paths differ)
             if os.path.isdir(os.path.join(REPO, 'target')):
                 subprocess.call(['cp', '-al', os.path.join(REPO, 'target'), os.path.join(d, 'target')])
+                # a hard-linked lock file is one lock shared by every copy: concurrent runs block each other forever
+                subprocess.call(['find', os.path.join(d, 'target'), '-name', '.cargo-lock', '-delete'])
             env = dict(os.environ, CARGO_NET_OFFLINE='true', CARGO_TARGET_DIR=os.path.join(d, 'target'))
-            t = subprocess.run(['cargo', 'test', '--workspace', '--no-fail-fast', '--offline', '--lib', '--bins'],
+            t = subprocess.run(['cargo', 'test', '--workspace', '--no-fail-fast', '--offline', '--tests'],
                                cwd=d, env=env, capture_output=True, text=True)
             passed = sum(int(x) for x in re.findall(r'test result: \w+\. (\d+) passed', t.stdout))
             failed = sum(int(x) for x in re.findall(r'test result: \w+\. \d+ passed; (\d+) failed', t.stdout))
